@@ -337,6 +337,45 @@ func runC13(c *Ctx) {
 			}
 		}
 	}
+	// (a3) a definition that comes after other commands already used the names it builds on
+	if c.Level("definition-after-use") {
+		bodies := []string{"'a' or 'ab'", "in 'a', 'b'", "at least 1 'a'", "'a' maybe 'b'", "not in 'b', 'd'"}
+		for _, b := range bodies {
+			for _, mid := range []string{"find all p", "find all p 'd' p", "replace all p with 'x'", "set z to pattern p 'd'", "find all 'd'"} {
+				for _, use := range []string{"find all q", "find all q p", "find all 'd' q 'd'", "find all p q"} {
+					b, mid, use := b, mid, use
+					src := "set p to pattern " + b + "\n" + mid + "\nset q to pattern 'd' p 'b'\n" + use
+					if !c.Unit(func() string { return src }) {
+						continue
+					}
+					// written out: the same last command with the bodies in place, compiled alone
+					w := strings.ReplaceAll(use, "q", "('d' ("+b+") 'b')")
+					w = strings.ReplaceAll(w, " p", " ("+b+")")
+					v, err, pi := compileSafe(src)
+					bv, err2, pi2 := compileSafe(w)
+					if err != nil || pi != nil || err2 != nil || pi2 != nil {
+						c.Violation("COMPILE definition-after-use", fmt.Sprintf("%q / %q rejected: %v %v %v %v", src, w, err, pi, err2, pi2), map[string]any{"kind": "compile", "src": src, "want": "accepted"})
+						continue
+					}
+					for _, t := range texts("abd", 5) {
+						c.Eval(1)
+						ms, pi := runSafe(v, t)
+						bm, _ := runSafe(bv, t)
+						// the last command contributes the tail of the result list; earlier commands its prefix
+						want := spansOf(bm)
+						got := spansOf(ms)
+						if len(want) > 0 {
+							c.Nontrivial(1)
+						}
+						if pi != nil || len(got) < len(want) || !spansEqual(got[len(got)-len(want):], want, false) || !c13PrefixOK(mid, b, t, got[:len(got)-len(want)]) {
+							c.Violation("TRANSPARENCY definition-after-use", fmt.Sprintf("%q on %q: %s (panic %v); the last command written out (%q) gives %s", src, t, fmtSpans(got, false), pi, w, fmtSpans(want, false)),
+								map[string]any{"kind": "records", "src": src, "text": t, "want": fmtSpans(want, false)})
+						}
+					}
+				}
+			}
+		}
+	}
 	// (b) commands
 	if c.Level("commands") {
 		defs := "set p to pattern 'a' or 'ab'\nset q to pattern {in 'b', 'd' maybe r} = r\n"
@@ -395,6 +434,19 @@ func runC13(c *Ctx) {
 	}
 	// (c) histories
 	runC13Histories(c, c.Pick(3, 4))
+}
+
+// c13PrefixOK: the matches contributed by the middle command equal that command compiled alone with its definition.
+func c13PrefixOK(mid, body, text string, prefix []Span) bool {
+	if strings.HasPrefix(mid, "set ") {
+		return len(prefix) == 0
+	}
+	v, err, pi := compileSafe("set p to pattern " + body + "\n" + mid)
+	if err != nil || pi != nil {
+		return false
+	}
+	ms, _ := runSafe(v, text)
+	return spansEqual(spansOf(ms), prefix, false)
 }
 
 func runC13Histories(c *Ctx, depth int) {
